@@ -185,8 +185,23 @@ pub fn run_stream_find_kind(s: &Searcher, case: &Case, fail_at: Option<usize>, k
             }};
         }
         use aho_corasick::automaton::Automaton;
+        // low-level automata: directly, or (every other call) through the
+        // blanket `impl Automaton for &A`
+        let by_ref = crate::engine::by_ref_toggle();
         match s {
             Searcher::Top(a) => drive!(a),
+            Searcher::Nc(a) if by_ref => {
+                let a = &a;
+                drive!(a)
+            }
+            Searcher::C(a) if by_ref => {
+                let a = &a;
+                drive!(a)
+            }
+            Searcher::D(a) if by_ref => {
+                let a = &a;
+                drive!(a)
+            }
             Searcher::Nc(a) => drive!(a),
             Searcher::C(a) => drive!(a),
             Searcher::D(a) => drive!(a),
@@ -349,8 +364,42 @@ fn stream_base(prop: &'static str, tier: Tier) -> BoxedStrategy<Case> {
         )
             .prop_map(Some),
     ];
-    (cases, sched_strategy(), bigmode)
-        .prop_map(|(mut case, sched, bigmode)| {
+    // ~2% of the cases: one pattern of 513..1300 bytes (longer than typical
+    // internal block sizes) next to the short ones, in a stream of a few KB
+    // read in large chunks
+    let longpat = prop_oneof![
+        49 => Just(None),
+        1 => (513usize..=1300, any::<u64>(), 0usize..=2500, 0usize..=1300, proptest::sample::select(vec![usize::MAX, 997, 2048, 4096, 700, 64])).prop_map(Some),
+    ];
+    (cases, sched_strategy(), bigmode, longpat)
+        .prop_map(|(mut case, sched, bigmode, longpat)| {
+            if let Some((plen, seed, before, after, read)) = longpat {
+                let mut sd = seed | 1;
+                let long: Vec<u8> = (0..plen)
+                    .map(|_| {
+                        sd = sd.wrapping_mul(6364136223846793005).wrapping_add(1442695040888963407);
+                        b'A' + ((sd >> 33) % 26) as u8
+                    })
+                    .collect();
+                case.patterns.truncate(4);
+                case.patterns.push(long.clone());
+                let short = case.patterns[0].clone();
+                // stream: filler, short, filler(before), long, short, filler(after), short
+                let mut h = vec![b'-'; 40];
+                h.extend_from_slice(&short);
+                h.extend(std::iter::repeat(b'.').take(before));
+                h.extend_from_slice(&long);
+                h.extend_from_slice(&short);
+                h.extend(std::iter::repeat(b'_').take(after));
+                h.extend_from_slice(&short);
+                h.extend_from_slice(&long[..plen / 2]);
+                case.haystack = h;
+                case.span = (0, case.haystack.len());
+                case.reads = vec![read];
+                case.spare = if seed % 3 == 0 { Some(1 + (seed % 7) as usize) } else { None };
+                case.sub = format!("{}+long-pattern-stream", case.sub);
+                return case;
+            }
             if let Some((which, back, fill, tail, read)) = bigmode {
                 case.patterns.truncate(6);
                 case.haystack = gen::big_stream(&case.patterns, which, back, fill, tail);
